@@ -49,7 +49,7 @@ def gen_history(rng, n):
             k = rng.choice(REC_OPS)
             if k == "reopen":
                 plan.append(["reopen", rng.choice([True, True, False]), rng.choice(["r", "r+", "a"]),
-                             rng.choice(["name", "list", "perm"])])
+                             rng.choice(["name", "list", "perm", "mf"])])
             elif k in ("neigh_w", "neigh_del"):
                 plan.append([k, rng.choice(NEIGH)])
             elif k == "commit_exts":
@@ -128,13 +128,18 @@ class Run:
                     ro = self.cls(files, "r")
                     self.commits.append({"files": [str(p) for p in files], "dump": E.dump_walk(ro)})
                     ro.close()
+                kw = {}
                 if by == "name":
                     what = self.d / "rec"
                 else:
                     what = list(files)
                     if by == "perm":
                         rng.shuffle(what)
-                self.rec = self.cls(what, mode)
+                    if by == "mf" and self.cls is RE.IH5MFRecord and RE.sidecar(files[-1]).exists():
+                        # the manifest handed over explicitly (as in the stub workflow): here simply the canonical sidecar
+                        kw["manifest_file"] = RE.sidecar(files[-1])
+                        self.acc.count("reopens_with_explicit_manifest") if self.record else None
+                self.rec = self.cls(what, mode, **kw)
             elif k in ("merge_other", "merge_same"):
                 self.mergectr += 1
                 name = f"m{self.mergectr if rng.random() < 0.8 else 1}"
